@@ -53,7 +53,12 @@ class RecorderRoles(object):
                 pre.append(_self_attr(s.targets[0]))
                 if any(isinstance(x, ast.Name) and x.id == 'RecordingParameters' for x in ast.walk(s.value)):
                     typed.append(_self_attr(s.targets[0]))
-        if len(set(pre)) > 1 and len(set(typed)) == 1:
+        typed_any = {_self_attr(n.targets[0]) for n in walk_own(self.start.node)
+                     if isinstance(n, ast.Assign) and len(n.targets) == 1 and _self_attr(n.targets[0]) and _self_attr(n.targets[0]) != self.active and
+                     any(isinstance(x, ast.Name) and x.id == 'RecordingParameters' for x in ast.walk(n.value))}
+        if len(typed_any) == 1:
+            pre = sorted(typed_any)     # wherever in the scope opener it is installed: the field built from RecordingParameters
+        elif len(set(pre)) > 1 and len(set(typed)) == 1:
             pre = typed        # further per-run fields may be set there: the parameters field is the one built from RecordingParameters
         self.params = self._one('recording-parameters-field', pre)
         # playback field: assigned in play from (a local holding) the result of get_recording
@@ -536,7 +541,7 @@ class RecorderPolicy(RepoPolicy):
 class RecorderDomain(Domain):
     """Abstract semantics of the recorder: counts the events rules ask for, tracks None-ness of per-run fields."""
 
-    COUNT_PREFIXES = ('iface:TapeCassette.', 'user-body:', 'user-plugin:', 'iface:Recording.add_metadata')
+    COUNT_PREFIXES = ('iface:TapeCassette.', 'user-body:', 'user-plugin:', 'iface:Recording.add_metadata', 'libobj:threading.')
 
     def __init__(self, graph, repo, excm, policy, roles, init=None, count=None, track_free=()):
         Domain.__init__(self, graph, repo, excm, policy)
